@@ -353,6 +353,9 @@ free_tzm(void)
 	return;
 }
 
+/* set when the zone names don't fit the 64k an offset can address */
+static unsigned int zns_full_p;
+
 static znoff_t
 tzm_find_zn(const char *zn, size_t zz)
 {
@@ -362,16 +365,24 @@ tzm_find_zn(const char *zn, size_t zz)
 	/* look for ZN, all of it, not a zone that merely begins with ZN */
 	for (; p < ep && *p && (strncmp(p, zn, zz) || p[zz]);
 	     p += strlen(p), p++);
-	if (*p) {
+	if (p < ep && *p) {
 		/* found it, yay */
 		return p - zns;
+	}
+	if (UNLIKELY(p - zns + zz >= 0x10000U)) {
+		/* the lookup needs offsets of 16 bits, see tzm_add_mn() */
+		zns_full_p = 1U;
+		return -1U;
 	}
 	/* otherwise append, first check if there's room */
 	if (p + zz + 4U >= ep) {
 		/* compute new p */
 		ptrdiff_t d = p - zns;
-		/* resize, double the size */
-		p = (zns = realloc(zns, znz *= 2U)) + d;
+		/* resize, double the size until the name fits */
+		do {
+			znz *= 2U;
+		} while (d + zz + 4U >= znz);
+		p = (zns = realloc(zns, znz)) + d;
 		memset(p, 0, (znz - (p - zns)) * sizeof(*zns));
 	}
 	/* really append now */
@@ -391,14 +402,19 @@ tzm_add_mn(const char *mn, size_t mz, znoff_t off)
 	}
 	/* first check if there's room */
 	if (p + 1U + (mz + 4U/*alignment*/) / sizeof(off) >= mns + mnz) {
-		/* resize, double the size */
-		p = (mns = realloc(mns, (mnz *= 2U) * sizeof(*mns))) + mni;
+		/* resize, double the size until the name fits */
+		do {
+			mnz *= 2U;
+		} while (mni + 1U + (mz + 4U) / sizeof(off) >= mnz);
+		p = (mns = realloc(mns, mnz * sizeof(*mns))) + mni;
 		memset((char*)p, 0, (mnz - (p - mns)) * sizeof(*mns));
 	}
 	/* really append now */
 	memcpy(p, mn, mz);
 	p += (mz - 1U) / sizeof(off) + 1U;
-	*p++ = htobe32((off & 0xffffU)<< 8U);
+	/* the offset word must begin (and end) with a \0 byte,
+	 * tzm_find_zn() makes sure there are 16 bits at most */
+	*p++ = htobe32((off & 0xffffU) << 8U);
 	mni = p - mns;
 	return;
 }
@@ -679,6 +695,11 @@ cmd_cc(const struct yuck_cmd_cc_s argi[static 1U])
 
 	if (parse_file(argi->args[0U]) < 0) {
 		error("cannot read file `%s'", *argi->args ?: "stdin");
+		rc = 1;
+		goto out;
+	} else if (zns_full_p) {
+		error("\
+cannot compile `%s': more than 64 KiB of zone names", *argi->args ?: "stdin");
 		rc = 1;
 		goto out;
 	} else if ((outf = argi->output_arg ?: "tzcc.tzm", false)) {
